@@ -1,6 +1,7 @@
 """C01 - hostile server responses never crash or hang a query."""
 from valve_common import *
 from quake_common import quake_specs, quake_case
+from u2_common import u2_specs, u2_case
 
 ID = "C01"
 PROPS_FILE = "C01"
@@ -14,7 +15,7 @@ TRUSTED = [
 RULE = ("malformed stream over Spec-generated valid scripts: truncation at every/ random offsets, extreme values (00, ff, 7f, 80, 16/32-bit extremes) written at random offsets, "
         "dropped / duplicated / swapped / empty / oversized (up to 64 KiB) datagrams, timeouts, deleted terminators, bit flips, random packets; all engines and gather settings, retries 0..2; "
         "non-trivial = the model's outcome is an error other than a receive timeout, or Ok after a mutation; distinct by case bytes")
-UNCOVERED = ["gamespy one/two/three", "unreal2", "minecraft java/bedrock/legacy/auto", "ffow", "savage2", "jc2m", "mindustry",
+UNCOVERED = ["gamespy one/two/three", "minecraft java/bedrock/legacy/auto", "ffow", "savage2", "jc2m", "mindustry",
              "valve master server", "generic dispatch", "eco (HTTP)"]
 
 
@@ -68,6 +69,28 @@ def gen_cases(tier, rng):
         body = r.bytes(r.choice([0, 1, 3, 9, 30]), [0x5c, 0x0a, 0x20, 0x22, 0x00, 0x41, 0x31, 0x2d, 0xff, 0xc3])
         d = (b"\xff\xff\xff\xff" + hdr + body) if r.chance(3, 4) else r.bytes(r.below(12))
         cases.append({"id": "qrand/%d" % i, "hex": quake_case(27960, v, None, [d]), "meta": {"stream": "quake-random", "kind": "random"}})
+    # Unreal 2: mutations, truncations, random packets
+    us = u2_specs([rng.next() >> 1 for _ in range(120 if tier == "quick" else 3000)], (1, 2))
+    for u in us:
+        for j in range(8 if tier == "quick" else 12):
+            kind, evs = mutate(u["events"], r)
+            g = r.choice([None, (1, 2), (2, 2), (1, 1), (2, 1)])
+            ts = None if r.chance(1, 2) else {"retries": r.below(3)}
+            cases.append({"id": "umut/%d/%d" % (u["seed"], j), "hex": u2_case(7778, g, ts, evs),
+                          "meta": {"stream": "unreal2-mut:" + kind.split("@")[0], "kind": kind}})
+    for u in us[: (6 if tier == "quick" else 100)]:
+        for w in range(len(u["events"])):
+            if u["events"][w] is None:
+                continue
+            for ti, evs in enumerate(all_truncations(u["events"], w, 1 if len(u["events"][w]) <= 96 else 5)):
+                cases.append({"id": "utrunc/%d/%d/%d" % (u["seed"], w, ti), "hex": u2_case(7778, (2, 2), None, evs),
+                              "meta": {"stream": "unreal2-truncations", "kind": "truncate"}})
+    for i in range(300 if tier == "quick" else 10000):
+        evs = []
+        for k in range(1 + r.below(3)):
+            kindb = r.choice([0, 1, 2, 2, 1, 3, 255])
+            evs.append(bytes([0x80, 0, 0, 0, kindb]) + r.bytes(r.choice([0, 1, 4, 9, 30]), [0x00, 0x01, 0x05, 0x7f, 0x80, 0x81, 0x85, 0xff, 0x41, 0x1b, 0xd8, 0xdc]))
+        cases.append({"id": "urand/%d" % i, "hex": u2_case(7778, r.choice([None, (2, 2)]), None, evs), "meta": {"stream": "unreal2-random", "kind": "random"}})
     # random packets over the boundary alphabet
     for i in range(300 if tier == "quick" else 20000):
         n = 1 + r.below(3)
@@ -85,6 +108,8 @@ def oracle(case, impl, side):
     res, _ = split_result(impl)
     if res is None:
         return ("no-output", "no output")
+    if res == "HANG" or impl == "HANG":
+        return ("hang", "the query does not return (no output for 12 s; the harness was killed)")
     if "PANIC" in res:
         loc = side.split("panicked at ")[-1].split(":")[0] if "panicked at " in side else "?"
         if "VERIF_HANG" in side:
@@ -103,4 +128,4 @@ def nontrivial(case, model):
 
 
 def extra_runs(tier, rng, ctx):
-    return [], {"uncovered_entry_points": UNCOVERED, "covered_entry_points": ["valve::query", "quake::one::query", "quake::two::query", "quake::three::query"]}
+    return [], {"uncovered_entry_points": UNCOVERED, "covered_entry_points": ["valve::query", "quake::one::query", "quake::two::query", "quake::three::query", "unreal2::query"]}
